@@ -504,9 +504,64 @@ fn ill_formed_graphs(ctx : &Ctx, out : &mut Out)
     }
 }
 
+/// Independent rules whose CURRENT targets are byte-identical (so their back-ups meet at one cache entry) and which
+/// rebuild in the same build, one of them with a command that fails, exits 0 without writing its target, or reads a
+/// missing file: built first with plain copy commands, then the rules file is edited and the leaves change.
+fn twin_targets(ctx : &Ctx, out : &mut Out)
+{
+    let mut rng = Rng::new(ctx.seed).fork(7117);
+    let n = if ctx.thorough { 120 } else { 12 };
+    let mk = |t : &str, sources : Vec<&str>, script : Vec<String>| RuleSpec{targets : vec![t.to_string()], sources : sources.iter().map(|s| s.to_string()).collect(), script : script, raw_command : None};
+    for i in 0..n
+    {
+        let mut r = rng.fork(i as u64);
+        let k = r.range(2, 3);
+        let with_dependent = r.chance(1, 2);
+        let names : Vec<String> = (0..k).map(|j| format!("I{}", j)).collect();
+        let leaves : Vec<String> = (0..k).map(|j| format!("{}", (b'a' + j as u8) as char)).collect();
+        let plain = |bad : Option<(usize, usize)>| -> Scenario
+        {
+            let mut rules = vec![];
+            for j in 0..k
+            {
+                let script = match bad
+                {
+                    Some((b, kind)) if b == j => match kind { 0 => vec!["fail".to_string()], 1 => vec![format!("true {}", names[j])], 2 => vec![format!("gen {} @no-such-file", names[j])], _ => vec![format!("gen {} @{}", names[j], leaves[j]), "fail".to_string()] },
+                    _ => vec![format!("gen {} @{}", names[j], leaves[j])],
+                };
+                rules.push(mk(&names[j], vec![leaves[j].as_str()], script));
+            }
+            if with_dependent { rules.push(mk("D", vec![names[0].as_str()], vec![format!("gen D =d @{}", names[0])])); }
+            Scenario{rules : rules, split_tokens : false}
+        };
+        let before = plain(None);
+        let bad = (r.below(k), r.below(4));
+        let after = plain(Some(bad));
+        out.count(&format!("twins:bad-kind-{}", bad.1));
+        let driver = Driver::new(ClockMode::Fine, 1_000_000);
+        let mut tr = Tracker::new("sched", true);
+        let mut prep : Vec<Op> = vec![];
+        let mut ops : Vec<Op> = vec![Op::Write(RULES_PATH.to_string(), before.render().into_bytes())];
+        for l in leaves.iter() { ops.push(Op::Write(l.clone(), b"X".to_vec())); }
+        ops.push(Op::Build(None));
+        ops.push(Op::Write(RULES_PATH.to_string(), after.render().into_bytes()));
+        for l in leaves.iter() { if r.chance(3, 4) { ops.push(Op::Write(l.clone(), r.pick(&["Y", "Z"]).as_bytes().to_vec())); } }
+        for op in ops
+        {
+            match &op { Op::Build(_) | Op::Clean(_) => { driver.invoke(&op, Policy::Serial); driver.tick(); }, _ => { driver.user(&op); driver.tick(); } }
+            prep.push(op);
+        }
+        tr.scenario = Some(after.clone());
+        tr.ever_targets.extend(after.all_targets());
+        let p = Prepared{driver : driver, prep : prep, tracker : tr, scenario : after};
+        explore(out, &mut r, &p, &Op::Build(None), if ctx.thorough { 40 } else { 16 }, 6, if ctx.thorough { 1500 } else { 200 }, 4);
+    }
+}
+
 pub fn schedules(ctx : &Ctx, out : &mut Out)
 {
     ill_formed_graphs(ctx, out);
+    twin_targets(ctx, out);
     // corpus: (history ...) cases whose last op is explored under schedules
     for (name, line) in world::corpus_cases("sched")
     {
